@@ -10,11 +10,7 @@ from symvm import runner
 
 VERIF = symvm.boot.VERIF
 
-NOT_APPLICABLE = {
-    'C09': 'wallet sync convergence lives in sqlite tables computed by SQL (_transaction_io, select_txos, get_balance) '
-           'driven by network replies under asyncio; neither the SQL engine nor the C library can be executed '
-           'symbolically here, and a hand-written database model would verify the model, not the code',
-}
+NOT_APPLICABLE = {}
 PENDING = 'solver-based harness not built yet in this tree (see DESIGN.md section 4 for the plan)'
 
 BASELINE = ('cd /repo && env -u LBRY_SDK_VERIF /venv/bin/python -m pytest -ra -q -p no:cacheprovider --timeout=900 '
